@@ -1,6 +1,6 @@
 (* Property C03 -- watchers get every committed change, only committed changes, and end up current *)
 (* Statements only: each theorem restates the proved lemma's statement and is closed by [exact]. *)
-From NunDB Require Import Model.Base Model.Pending Model.Parse Model.Node Proofs.DbProofs Proofs.WatchProofs Model.Sched Proofs.SchedProofs.
+From NunDB Require Import Model.Base Model.Pending Model.Parse Model.Node Proofs.DbProofs Proofs.WatchProofs Model.Sched Proofs.SchedProofs Model.Net Proofs.GuardProofs Proofs.NetProofs Proofs.NetProofs2 Proofs.NetWatchProofs.
 Local Open Scope Z_scope.
 
 (* an accepted write sends every subscription of the key exactly one changed / changed-version pair carrying the stored value and version; subscriptions are untouched *)
@@ -303,3 +303,124 @@ Theorem C03_sched_schedule_full :
          option_map (fun d : db => fold_left lop_apply (ops_on dbn (full_log n ts sched)) d) (get_db n dbn).
 Proof. exact schedule_full. Qed.
 Print Assumptions C03_sched_schedule_full.
+
+(* what TCP clients read after an accepted set: every other session gets its notification lines once per subscription, the writer its own notifications and then the terminator, last *)
+Theorem C03_tcp_set_stream :
+  forall (n : node) (w : nat) (line k v : str) (ver : Z) (dbn : str) (d : db),
+         utf8_valid line = true ->
+         parse_request (trim_char nl (line +++ nlS)) = POk (RqSet k v ver) ->
+         guard_safe n w k PWrite = GGo dbn d ->
+         d_strat d = SNone ->
+         snd (step n w (line +++ nlS)) = ROk ->
+         snd (tcp_line n w line) = Serving /\
+         set_stream n (fst (tcp_line n w line)) w dbn d k v ("ok " +++ nlS).
+Proof. exact tcp_set_stream. Qed.
+Print Assumptions C03_tcp_set_stream.
+
+(* the same for a WebSocket frame *)
+Theorem C03_ws_frame_set_stream :
+  forall (n : node) (w : nat) (p k v : str) (ver : Z) (dbn : str) (d : db),
+         AdminInv n ->
+         utf8_valid p = true ->
+         (forall i : nat, get i p <> Some ";"%char) ->
+         parse_request (trim_char nl p) = POk (RqSet k v ver) ->
+         guard_safe n w k PWrite = GGo dbn d ->
+         d_strat d = SNone ->
+         snd (step n w p) = ROk ->
+         snd (ws_frame n w p) = Serving /\ set_stream n (fst (ws_frame n w p)) w dbn d k v ("ok " +++ nlS).
+Proof. exact ws_frame_set_stream. Qed.
+Print Assumptions C03_ws_frame_set_stream.
+
+(* a refused write reaches nobody but the writer (databases without an arbiter) *)
+Theorem C03_tcp_refused_stream :
+  forall (n : node) (w : nat) (line k v : str) (ver : Z),
+         utf8_valid line = true ->
+         parse_request (trim_char nl (line +++ nlS)) = POk (RqSet k v ver) ->
+         (forall (dbn : str) (d : db), guard_safe n w k PWrite = GGo dbn d -> d_strat d <> SArbiter) ->
+         refused (snd (step n w (line +++ nlS))) ->
+         snd (tcp_line n w line) = Serving /\
+         refused_stream n (fst (tcp_line n w line)) w (snd (step n w (line +++ nlS)))
+           (term_tcp (snd (step n w (line +++ nlS)))).
+Proof. exact tcp_refused_stream. Qed.
+Print Assumptions C03_tcp_refused_stream.
+
+(* on an arbiter database the refusal is a conflict notice to the arbiter: the hypothesis cannot be dropped *)
+Theorem C03_arbiter_refusal_reaches_the_arbiter :
+  let n1 :=
+           fst
+             (net_run nw0
+                [NConnect; NConnect; NTcpLine 0 "auth u p"; NTcpLine 0 "create-db a ta arbiter";
+                 NTcpLine 0 "use-db a ta"; NTcpLine 1 "use-db a ta"; NTcpLine 1 "arbiter";
+                 NTcpLine 0 "set k v1"; NTcpLine 0 "set k v2"]) in
+         let n2 := fst (tcp_line n1 0 "set-safe k 0 v0") in
+         snd (step n1 0 ("set-safe k 0 v0" +++ nlS)) = RError "$$conflitct unresolved $conflicts_k_11" /\
+         s_inbox (get_sess n1 1) = [okT; okT] /\
+         s_inbox (get_sess n2 1) = [okT; okT; "resolve 11 a 1 k v2 v0"] /\
+         s_inbox (get_sess n2 0) =
+         s_inbox (get_sess n1 0) ++ ["error $$conflitct unresolved $conflicts_k_11 " +++ nlS].
+Proof. exact arbiter_refusal_reaches_the_arbiter. Qed.
+Print Assumptions C03_arbiter_refusal_reaches_the_arbiter.
+
+(* a refused version is answered ok over TCP ... *)
+Theorem C03_term_tcp_version_error :
+  forall (key : str) (ov ver : Z) (old : value) (ch : change) (st : vstate),
+         term_tcp (RVersionError key ov ver old ch st) = "ok " +++ nlS.
+Proof. exact term_tcp_version_error. Qed.
+Print Assumptions C03_term_tcp_version_error.
+
+(* ... and with an error over WebSocket *)
+Theorem C03_term_ws_version_error :
+  forall (key : str) (ov ver : Z) (old : value) (ch : change) (st : vstate),
+         term_ws (RVersionError key ov ver old ch st) = "error Invalid version! " +++ nlS.
+Proof. exact term_ws_version_error. Qed.
+Print Assumptions C03_term_ws_version_error.
+
+(* the end of a connection: every other session's subscriptions unchanged, the closing session's removed, nobody is sent anything except the watchers of $connections *)
+Theorem C03_conn_closed_keeps_others :
+  forall (n : node) (c : nat),
+         (forall (x k : str) (s : nat), s <> c -> nsubs_n (conn_closed n c) x k s = nsubs_n n x k s) /\
+         (forall dbn : str,
+          s_db (get_sess n c) = Some dbn -> forall k : str, nsubs_n (conn_closed n c) dbn k c = 0%nat) /\
+         (forall (dbn : str) (d : db) (s : nat),
+          s <> c ->
+          s_db (get_sess n c) = Some dbn ->
+          get_db n dbn = Some d -> quiet d s -> get_sess (conn_closed n c) s = get_sess n s) /\
+         (forall (dbn : str) (d : db),
+          s_db (get_sess n c) = Some dbn ->
+          get_db n dbn = Some d ->
+          d_strat d = SNone ->
+          (exists ver : Z,
+             forall s : nat,
+             (s < Datatypes.length (n_sess n))%nat ->
+             s_inbox (get_sess (conn_closed n c) s) =
+             s_inbox (get_sess n s) ++
+             concat
+               (repeat (change_lines "$connections" (Z_to_str (d_conn d - 1)) ver)
+                  (if (s =? c)%nat then 0%nat else nsubs d "$connections" s))) \/
+          n_sess (conn_closed n c) = n_sess n) /\
+         (s_db (get_sess n c) = None \/
+          (exists dbn : str, s_db (get_sess n c) = Some dbn /\ get_db n dbn = None) ->
+          conn_closed n c = send n c no_db_msg).
+Proof. exact conn_closed_keeps_others. Qed.
+Print Assumptions C03_conn_closed_keeps_others.
+
+(* along any sequence of transport events not issued by session s (TCP lines, WebSocket frames, HTTP requests, connections opening and closing) the subscriptions of s are unchanged *)
+Theorem C03_net_run_subscription_stable :
+  forall (evs : list net_ev) (n : node) (s : nat),
+         (s < Datatypes.length (n_sess n))%nat ->
+         Forall (ev_not_by s) evs ->
+         (s < Datatypes.length (n_sess (fst (net_run n evs))))%nat /\
+         (forall x k : str, nsubs_n (fst (net_run n evs)) x k s = nsubs_n n x k s).
+Proof. exact net_run_subscription_stable. Qed.
+Print Assumptions C03_net_run_subscription_stable.
+
+(* two TCP sessions, one watches k, the other sets it: the exact inboxes *)
+Theorem C03_tcp_watch_set_example :
+  let n := fst (tcp_line nw1 0 "set k v1") in
+         s_inbox (get_sess nw1 0) = inbox0 /\
+         s_inbox (get_sess nw1 1) = inbox1 /\
+         s_inbox (get_sess n 0) = inbox0 ++ [okT] /\
+         s_inbox (get_sess n 1) = inbox1 ++ ["changed k v1" +++ nlS; "changed-version k 0 v1" +++ nlS] /\
+         s_inbox (get_sess n 1) = inbox1 ++ change_lines "k" "v1" 0.
+Proof. exact tcp_watch_set_example. Qed.
+Print Assumptions C03_tcp_watch_set_example.
